@@ -307,12 +307,12 @@ func (r *Run) Finish(cov map[string]any) {
 	}
 	fmt.Printf("SUMMARY property=%s tier=%s evaluations=%v distinct=%v states=%v transitions=%v exhaustive=%v known=%d violations=%d wall=%.1fs\n",
 		r.ID, r.Tier, cov["evaluations"], cov["distinct_nontrivial"], cov["states"], cov["transitions"], cov["exhaustive"], knownHit, newViol, wall)
+	if newViol > 0 { // a found violation takes precedence over the vacuity guard
+		os.Exit(1)
+	}
 	if len(missing) > 0 {
 		fmt.Printf("HARNESS-ERROR property=%s vacuous run: outcome classes never observed: %v\n", r.ID, missing)
 		os.Exit(2)
-	}
-	if newViol > 0 {
-		os.Exit(1)
 	}
 	os.Exit(0)
 }
